@@ -87,8 +87,19 @@ def printableOrNull : Option Bytes → Bytes
 /-- `TestFailure::createUserText` -/
 def userText (text : Bytes) : Bytes :=
   if text.isEmpty then []
-  else (if ([76, 79, 78, 71, 83, 95, 69, 81, 85, 65, 76] : Bytes).isPrefixOf text then [] else [77, 101, 115, 115, 97, 103, 101, 58, 32])
-        ++ text ++ [10, 9]
+  else (if userTextException.isPrefixOf text then [] else userTextPrefix) ++ text ++ userTextSeparator
+
+/-- `TestFailure(test, file, line)`: no message given -/
+def baseFailureNoMessage : Bytes := noMessageText
+
+/-- `TestFailure(test, file, line, message)` / `TestFailure(test, message)` -/
+def baseFailure (message : Bytes) : Bytes := message
+
+/-- `UnexpectedExceptionFailure(test)` -/
+def unexpectedExceptionUnknown : Bytes := excUnknownText
+
+/-- `UnexpectedExceptionFailure(test, e)`: the (demangled) type name and `e.what()` are inputs -/
+def unexpectedException (typeName what : Bytes) : Bytes := render excFmt [.str typeName, .str what]
 
 /-- `TestFailure::createButWasString` -/
 def butWas (expected actual : Bytes) : Bytes := render butWasFmt [.str expected, .str actual]
@@ -428,6 +439,70 @@ def OutBuf.run (o : OutBuf) (ops : List Op) : OutBuf := ops.foldl OutBuf.step o
 /-- `MemoryLeakDetector::ConstructMemoryLeakReport` over the leaks of the period, in table order -/
 def OutBuf.report (o : OutBuf) (leaks : List Leak) : OutBuf :=
   (leaks.foldl OutBuf.reportLeak o.start).stop
+
+/-! ### the reads of the leaked memory -/
+
+/-- the bytes `mem[pos .. pos+n)`, read with bounds -/
+def readRange (mem : Bytes) (pos n : Nat) : Except Err Bytes :=
+  if pos + n ≤ mem.length then .ok ((mem.drop pos).take n) else .error .oob
+
+/-- `addMemoryDump(memory, size)` reading `memory[currentPos + p]` for `p < bytesInLine` only;
+    `mem` is the block as it is allocated (a freed block has no readable byte) -/
+def dumpPiecesRd : Nat → Nat → Bytes → Nat → Except Err (List Bytes)
+  | 0, _, _, _ => .ok []
+  | fuel + 1, size, mem, pos =>
+    if pos < size then
+      match readRange mem pos (min (size - pos) dumpLineBytes) with
+      | .error e => .error e
+      | .ok line =>
+        match dumpPiecesRd fuel size mem (pos + min (size - pos) dumpLineBytes) with
+        | .error e => .error e
+        | .ok rest => .ok (dumpLinePieces pos line ++ rest)
+    else .ok []
+
+/-- a leak as the table holds it: `block` = the bytes readable at `memory_` (`none`: the block was
+    freed behind the detector's back) -/
+structure LeakRef where
+  number    : Nat
+  size      : Nat
+  file      : Bytes
+  line      : Nat
+  allocName : Bytes
+  ptr       : Bytes
+  block     : Option Bytes
+deriving Repr, DecidableEq, Inhabited
+
+def LeakRef.readable (l : LeakRef) : Bytes :=
+  match l.block with
+  | some b => b
+  | none => []
+
+/-- `reportMemoryLeak` with the dump reading the block -/
+def OutBuf.reportLeakRd (o : OutBuf) (l : LeakRef) : Except Err OutBuf :=
+  match dumpPiecesRd l.size l.size l.readable 0 with
+  | .error e => .error e
+  | .ok pieces =>
+    .ok { buf := pieces.foldl Buf.add
+                   ((if o.total = 0 then o.buf.add headerText else o.buf).add
+                     (render leakFmt [.nat l.number, .nat l.size, .str l.file, .int (castInt32 l.line), .str l.allocName, .str l.ptr])),
+          total := o.total + 1,
+          mallocWarn := o.mallocWarn || (l.allocName == mallocName) }
+
+def reportLeaksRd : OutBuf → List LeakRef → Except Err OutBuf
+  | o, [] => .ok o
+  | o, l :: ls =>
+    match o.reportLeakRd l with
+    | .error e => .error e
+    | .ok o' => reportLeaksRd o' ls
+
+/-- `ConstructMemoryLeakReport` with the reads made explicit -/
+def OutBuf.reportRd (o : OutBuf) (leaks : List LeakRef) : Except Err OutBuf :=
+  match reportLeaksRd o.start leaks with
+  | .error e => .error e
+  | .ok o' => .ok o'.stop
+
+/-- the overloads of `allocMemory` / `deallocMemory` without a location pass `"<unknown>"` and line 0 -/
+def noLocation : Bytes × Nat := (unknownFile, 0)
 
 /-! ## (C) `add` over the real array -/
 
